@@ -26,6 +26,7 @@ from insights.core.context import ExecutionContext, HostContext, SerializedArchi
 from insights.core.exceptions import CalledProcessError, ContentException
 from insights.core.plugins import datasource
 from insights.core.serde import Hydration
+from insights.util.mangle import mangle_command
 from insights.core.spec_factory import (
     CommandOutputProvider, ContainerCommandProvider, ContainerFileProvider, DatasourceProvider,
     RawFileProvider, RegistryPoint, SerializedOutputProvider, SerializedRawOutputProvider, SpecSet,
@@ -246,6 +247,125 @@ def gen_world(rng, wid, tier, long_len=0, big=None):
                 if rng.random() < 0.3:
                     sp["elems"][0]["out"] = gen_line(rng, 8000) + "\n"
     return {"id": wid, "host": host, "specs": specs, "seed": rng.getrandbits(32), "pool": pool}
+
+
+# ----------------------------------------------------------------------------- names with dot patterns that are no parent references
+
+DOTNAMES = [".hidden", "a.", "...", "renamed..out", "report..v2", "..data", "x..", ". .", "50%", "é.ü", "..a..", "a b",
+            ".ssh", "..c", "v1..2..3", "....", ".a.", "Ж..中"]
+DOTPATHS = ["/etc/.hidden", "/root/.ssh", "/a/..b/c..", "...", "/x/.../y", "/var/..cache/.k", "a..b", "/etc/conf.d/..data/x",
+            "/.a/.b/.c", "/é/..ü", "./rel/.x", "/trailing./dots.."]
+WORD_CHARS = "abcxyzABZ019_éßЖ中ü"          # characters that are \\w for Python's re (checked at import below)
+assert all(__import__("re").match(r"\w", c) for c in WORD_CHARS)
+
+
+def dotname(rng, glob_safe=False):
+    n = rng.choice(DOTNAMES)
+    if glob_safe:                     # `*` does not match a leading dot, and the pattern ends in .conf
+        n = n.lstrip(". ") or "x.."
+    return n
+
+
+def gen_dot_spec(rng, i, host):
+    """specs in the shapes of gen_spec whose locations under data/ contain dots that are NOT parent references"""
+    t = rng.choice(["file", "file", "first", "glob", "cmd", "cmd", "cmd", "longcmd", "cmdargs", "foreach", "foreach", "ccmd",
+                    "cfile", "ds", "ds", "dsmulti"])
+    sp = {"t": t if t != "longcmd" else "cmd", "name": "s%d" % i}
+    form = rng.choice(["none", "none", "file", "dir"])
+
+    def saveas(form):
+        if form == "none":
+            return None
+        body = "S%d%s" % (i, "/".join(dotname(rng) for _ in range(rng.choice([1, 1, 2]))))
+        return rng.choice(["", "/"]) + body + ("/" if form == "dir" else "")
+    if t in ("file", "first"):
+        sp["file"] = gen_file(rng, "/d%d/%s/%s" % (i, dotname(rng), dotname(rng)), allow_empty=not host)
+        sp["save_as"] = saveas(form)
+    elif t == "glob":
+        base = dotname(rng, True)
+        sp["files"] = [gen_file(rng, "/d%d/sub%d/%s%d.conf" % (i, j, base, j), allow_empty=not host) for j in range(rng.choice([1, 2, 3]))]
+        sp["pattern"] = "/d%d/*/*.conf" % i
+        sp["save_as"] = saveas(rng.choice(["none", "dir"]))
+    elif t in ("cmd", "longcmd"):
+        arg = rng.choice(DOTPATHS)
+        if t == "longcmd":           # close to NAME_MAX after mangling (the mangled name is cut at 255 characters)
+            arg = "/" + "".join(rng.choice("abcxyz019") for _ in range(rng.choice([225, 236, 237, 238, 250, 300]))) + rng.choice(["/.h", "..", "/..k/z"])
+        sp["cmd"] = "%s %s u%d" % (rng.choice(["/bin/echo", "/bin/ls -la", "/bin/cat"]), arg, uniq())
+        if rng.random() < 0.3 and t == "cmd":
+            sp["cmd"] = "%s %s" % (sp["cmd"], rng.choice(DOTPATHS))          # ends in a dot path: the strip of " ._-" matters
+        sp["save_as"] = saveas(rng.choice(["none", "none", "file"]))
+        sp["keep_rc"], sp["rc"], sp["fail"], sp["split"] = False, 0, False, True
+        sp["out"] = cmd_output(rng) or "x\n"
+    elif t == "cmdargs":
+        sp["arg"] = rng.choice(DOTPATHS)
+        sp["cmd"] = "/bin/ls -l %s" + " u%d" % uniq()
+        sp["save_as"] = saveas(rng.choice(["none", "file"]))
+        sp["out"], sp["fail"] = cmd_output(rng) or "x\n", False
+    elif t == "foreach":
+        args = rng.sample(DOTPATHS, rng.choice([1, 2, 3, 4]))
+        sp["cmd"] = "/bin/cat %s" + " u%d" % uniq()
+        sp["elems"] = [{"arg": a, "out": cmd_output(rng) or "x\n", "fail": False} for a in args]
+    elif t == "ccmd":
+        sp["cmd"] = "cat %s" + " u%d" % uniq()
+        sp["elems"] = [{"image": "img", "engine": rng.choice(["env", "test"]), "cid": "c%d_%d" % (i, j), "args": [a],
+                        "out": cmd_output(rng) or "x\n", "fail": False}
+                       for j, a in enumerate(rng.sample(DOTPATHS, rng.choice([1, 2, 3])))]
+    elif t == "cfile":
+        sp["elems"] = [{"image": "img", "engine": rng.choice(["env", "test"]), "cid": "c%d_%d" % (i, j), "path": a if a.startswith("/") else "/" + a,
+                        "out": cmd_output(rng) or "x\n", "fail": False}
+                       for j, a in enumerate(rng.sample([x for x in DOTPATHS if " " not in x], rng.choice([1, 2, 3])))]
+    else:
+        def elem(j):
+            lines = gen_lines(rng, not host)
+            sa = saveas(rng.choice(["none", "none", "file", "dir"]))
+            return {"lines": [l for l in lines] or ["x"], "as_str": False,
+                    "rel": rng.choice(["", "/"]) + "ds%d/%s/%s%d" % (i, dotname(rng), dotname(rng), j),
+                    "save_as": (sa.lstrip("/") + ("%d" % j if sa and not sa.endswith("/") else "")) if sa else None}
+        if t == "ds":
+            sp["elem"] = elem(0)
+        else:
+            sp["elems"] = [elem(j) for j in range(rng.choice([1, 2, 3]))]
+    return sp
+
+
+def gen_dot_world(rng, wid):
+    host = rng.random() < 0.6
+    specs = [gen_dot_spec(rng, i, host) for i in range(rng.choice([2, 3, 4, 5]))]
+    return {"id": wid, "host": host, "specs": specs, "seed": rng.getrandbits(32), "pool": 0, "dots": True}
+
+
+def stream_names(chk, n):
+    """mangle_command and the load-side containment test as functions on strings"""
+    rng = chk.rng
+    cases, impl, lines = [], [], []
+    alphabet = list(WORD_CHARS) + list("....//// --__%$:=@") + ["..", "/.", "./", " ."]
+    tmp = tempfile.mkdtemp(prefix="c11n-")
+    root = os.path.realpath(tmp)
+    try:
+        for i in range(n):
+            if i % 2 == 0:
+                cmd = rng.choice(["/bin/", "/usr/bin/", "/sbin/", "/usr/sbin/", "/usr/", "", "/opt/x/", "/bin", "bin/"]) + \
+                    "".join(rng.choice(alphabet) for _ in range(rng.choice([0, 1, 2, 3, 5, 8, 13, 30, 260])))
+                got = mangle_command(cmd)
+                cases.append(("mangle", cmd)); lines.append("mangle\t" + enc(cmd)); impl.append(enc(got))
+                chk.case(("mangle", cmd), bool(cmd)); chk.count("names:mangle")
+                # oracle: a mangled command line is ONE name that is no parent reference
+                if "/" in got or got == "..":
+                    chk.failure("mangle_command(%r) = %r is not a plain file name" % (cmd, got), {"op": "mangle", "cmd": cmd})
+            else:
+                comps = [rng.choice(DOTNAMES + ["..", "..", ".", "", "a", "b"]) for _ in range(rng.choice([1, 2, 3, 4, 5]))]
+                rel = "/".join(comps).lstrip("/")            # the deserializers strip leading slashes first
+                resolved = os.path.realpath(os.path.join(root, rel))        # nothing exists there: purely lexical
+                got = "1" if (resolved == root or resolved.startswith(root + os.sep)) else "0"
+                cases.append(("contained", rel)); lines.append("contained\t" + enc(rel)); impl.append(got)
+                chk.case(("contained", rel), True)
+                chk.count("names:contained=" + got + (" (has a real parent reference)" if ".." in comps else ""))
+                if got == "0" and ".." not in comps:
+                    chk.failure("a location without a parent reference resolves outside the root: %r" % rel, {"op": "contained", "rel": rel})
+    finally:
+        shutil.rmtree(tmp, ignore_errors=True)
+    model = run_driver("C11", lines)
+    chk.compare("names: mangle, containment", cases, impl, model)
 
 
 # ----------------------------------------------------------------------------- failing writers next to successful ones
@@ -1346,7 +1466,9 @@ def run(chk):
                 "k in 1..4, with the first element of multi-output specs 200 KB / 8 KB larger or answering 30 ms late, and compared with a "
                 "serial collection of the same specs; then 1 intact "
                 "+ 3 corrupted hydrations per archive (delete, truncate, garbage, unknown name, directory, bad UTF-8, wrong "
-                "shapes, data file removed; sparse, dense and total patterns); plus failure-frame archives: 2-6 components under a HostContext "
+                "shapes, data file removed; sparse, dense and total patterns); plus dot-name archives: file, glob, command (plain, with args, "
+                "foreach, container command/file, names cut at 255 characters) and datasource specs whose paths / arguments / relative_path / "
+                "save_as carry .hidden, a., ..., renamed..out, ..data, spaces, %, Unicode — never a real '..' component; plus failure-frame archives: 2-6 components under a HostContext "
                 "with a cleaner, persisted by dr.run_all over the sub-graphs of one broker, destinations shared at random (same file through "
                 "two registry points with different filters, same save_as), a random subset failing at serialization (empty, empty after "
                 "filtering, empty after cleaning, CalledProcessError from load, destination that cannot be opened), order forced by "
@@ -1360,6 +1482,7 @@ def run(chk):
     stream_text(chk, n_text)
     stream_saveas(chk, 150 if quick else 2000)
     stream_prune(chk, 120 if quick else 3000)
+    stream_names(chk, 400 if quick else 20000)
 
     def fail(desc_, case, finding):
         chk.failure(desc_, case, finding=finding)
@@ -1399,6 +1522,19 @@ def run(chk):
         if wi < 2:
             chk.sample({"archive": [dict((k, v) for k, v in sp.items() if k in ("t", "save_as", "cmd", "pattern")) for sp in desc["specs"]],
                         "host": desc["host"], "corruptions": [[c["cls"] for c in p] for p in pats]})
+    # ---- archives whose locations carry dot patterns that are no parent references: everything persisted must load
+    n_dot = 60 if quick else 1500
+    for wi in range(n_dot):
+        desc = gen_dot_world(rng, 200000 + wi)
+        pats = gen_patterns(rng, len(desc["specs"]), 1)
+        ls, im, kp = run_world(desc, pats, fail, chk.count)
+        all_lines += ls; all_impl += im; all_keep += kp
+        all_cases += [("dots", wi, l.split("\t")[0]) for l in ls]
+        chk.case(("dots", json.dumps(desc, sort_keys=True)), True)
+        chk.count("dots:archives")
+        if wi < 1:
+            chk.sample({"dot-name archive": [dict((k, v) for k, v in sp.items() if k in ("t", "save_as", "cmd", "pattern")) for sp in desc["specs"]]})
+
     # ---- failure-frame archives: failing writers next to successful ones, shared destinations, run_all
     n_frame = 150 if quick else 3000
     for wi in range(n_frame):
